@@ -156,6 +156,28 @@ theorem vValidValue_err (hfp : FpAgree) (prim : String) (hi : isIntegralPrim pri
       simp only [hne, Bool.false_and, Bool.not_false, Bool.true_and, Bool.false_or, Bool.not_eq_eq_eq_not, Bool.not_true] at h2
       simp [hne, h2, Diag.viol]
 
+theorem vValidValues_err (prim : String) (p : Path) : ∀ (vs : List ValidValue) (seen : List String) (d : Diag),
+    vValidValues prim p seen vs = .error d →
+      (∃ v ∈ vs, vValidValue prim p v = .error d) ∨
+      (∃ v ∈ repeats (enumValueKey prim) seen vs, d.viol = (.duplicateEnumValue, p ++ [v.name])) := by
+  intro vs
+  induction vs with
+  | nil => intro seen d h; simp [vValidValues] at h
+  | cons v rest ih =>
+    intro seen d h
+    unfold vValidValues at h
+    rcases (bind_err _ _ d).mp h with h | ⟨_, _, h⟩
+    · exact Or.inl ⟨v, by simp, h⟩
+    · rw [need_bind_err, normalized_eq] at h
+      rcases h with ⟨h1, rfl⟩ | ⟨h1, h⟩
+      · right
+        have h1' : enumValueKey prim v ∈ seen := by simpa using h1
+        exact ⟨v, by simp [repeats, h1'], rfl⟩
+      · have h1' : enumValueKey prim v ∉ seen := by simpa using h1
+        rcases ih _ d h with ⟨v', hv', hh⟩ | ⟨v', hv', hh⟩
+        · exact Or.inl ⟨v', by simp [hv'], hh⟩
+        · exact Or.inr ⟨v', by simpa [repeats, h1'] using hv', hh⟩
+
 theorem vEnum_err (hfp : FpAgree) (types : List Elem) (p : Path) (n enc : String) (o : Option Nat) (vs : List ValidValue)
     (a : Attrs) (d : Diag) (h : vEnum types p n enc vs = .error d) : ElemBad types p (.enum n enc o vs a) d.viol := by
   unfold vEnum at h
@@ -175,12 +197,17 @@ theorem vEnum_err (hfp : FpAgree) (types : List Elem) (p : Path) (n enc : String
       rcases h with ⟨h1, rfl⟩ | ⟨hi, h⟩
       · exact Or.inr (Or.inr (by simp [elemViols, hr, h1, Diag.viol]))
       · rcases (bind_err _ _ d).mp h with h | ⟨_, _, h⟩
-        · obtain ⟨v, hv, hvd⟩ := allOk_err _ _ d h
-          rcases vValidValue_err hfp prim hi p v d hvd with h2 | h2
-          · exact Or.inr (Or.inl ⟨v, hv, h2⟩)
+        · rcases vValidValues_err prim p vs [] d h with ⟨v, hv, hvd⟩ | ⟨v, hv, hvd⟩
+          · rcases vValidValue_err hfp prim hi p v d hvd with h2 | h2
+            · exact Or.inr (Or.inl ⟨v, hv, h2⟩)
+            · exact Or.inr (Or.inr (by
+                simp only [elemViols, hr, hi, Bool.not_true, Bool.false_eq_true, ↓reduceIte, List.mem_append,
+                  List.mem_filterMap]
+                exact Or.inl ⟨v, hv, h2⟩))
           · exact Or.inr (Or.inr (by
-              simp only [elemViols, hr, hi, Bool.not_true, Bool.false_eq_true, ↓reduceIte, List.mem_filterMap]
-              exact ⟨v, hv, h2⟩))
+              simp only [elemViols, hr, hi, Bool.not_true, Bool.false_eq_true, ↓reduceIte, List.mem_append,
+                List.mem_map]
+              exact Or.inr ⟨v, hv, hvd.symm⟩))
         · cases h
 
 theorem vChoice_err (prim : String) (k : Nat) (hk : primBytes prim = some k) (hk1 : 1 ≤ k) (p : Path) (c : Choice) (d : Diag)
@@ -455,38 +482,64 @@ theorem cycle_no_unfold (types : List Elem) (x : Elem) (ty : String) (hr : Reach
       rw [ih k' hk'] at hu
       cases hu
 
+/-! ### where a broken rule sits in `violations` -/
+
+theorem viol_of_attr (s : SchemaDef) (w : Viol) (h : w ∈ attrViols s) : w ∈ violations s := by
+  unfold violations; simp only [List.mem_append]; simp [h]
+theorem viol_of_dup (s : SchemaDef) (w : Viol) (h : w ∈ dupViols s) : w ∈ violations s := by
+  unfold violations; simp only [List.mem_append]; simp [h]
+theorem viol_of_name (s : SchemaDef) (w : Viol) (h : w ∈ nameViols s) : w ∈ violations s := by
+  unfold violations; simp only [List.mem_append]; simp [h]
+theorem viol_of_elem (s : SchemaDef) (w : Viol) (q : Path) (x : Elem) (hm : (q, x) ∈ allElems s)
+    (h : w ∈ elemViols s.types q x) : w ∈ violations s := by
+  have : w ∈ (allElems s).flatMap (fun (p, e) => elemViols s.types p e) := List.mem_flatMap.mpr ⟨(q, x), hm, h⟩
+  unfold violations; simp only [List.mem_append]; simp only [this, true_or, or_true]
+theorem viol_of_cycle (s : SchemaDef) (w : Viol) (h : w ∈ cycleViols s) : w ∈ violations s := by
+  unfold violations; simp only [List.mem_append]; simp [h]
+theorem viol_of_header (s : SchemaDef) (w : Viol)
+    (h : w ∈ headerViols s.types ["schema"] s.headerType ["schemaId", "templateId", "version", "blockLength"] false) :
+    w ∈ violations s := by
+  unfold violations; simp only [List.mem_append]; simp [h]
+theorem viol_of_schemaId (s : SchemaDef) (w : Viol)
+    (h : w ∈ headerValueViols s.types s.headerType "schemaId" s.id ["schema"]) : w ∈ violations s := by
+  unfold violations; simp only [List.mem_append]; simp [h]
+theorem viol_of_version (s : SchemaDef) (w : Viol)
+    (h : w ∈ headerValueViols s.types s.headerType "version" s.version ["schema"]) : w ∈ violations s := by
+  unfold violations; simp only [List.mem_append]; simp [h]
+theorem viol_of_templateId (s : SchemaDef) (w : Viol) (m : MessageDef) (hm : m ∈ s.messages)
+    (h : w ∈ headerValueViols s.types s.headerType "templateId" m.id (msgPath m)) : w ∈ violations s := by
+  have : w ∈ s.messages.flatMap (fun m => headerValueViols s.types s.headerType "templateId" m.id (msgPath m)) :=
+    List.mem_flatMap.mpr ⟨m, hm, h⟩
+  unfold violations; simp only [List.mem_append]; simp only [this, true_or, or_true]
+theorem viol_of_level (s : SchemaDef) (w : Viol) (l : LevelView) (hl : l ∈ allLevels s)
+    (h : w ∈ levelViols s.types l) : w ∈ violations s := by
+  have : w ∈ (allLevels s).flatMap (levelViols s.types) := List.mem_flatMap.mpr ⟨l, hl, h⟩
+  unfold violations; simp only [List.mem_append]; simp only [this, or_true]
+theorem viol_of_invalidName (s : SchemaDef) (n : String) (p : Path) (hm : (n, p) ∈ entityNames s)
+    (hs : symbolicName n = false) : (DiagClass.invalidName, p) ∈ violations s := by
+  apply viol_of_name
+  unfold nameViols
+  refine List.mem_append.mpr (Or.inl (List.mem_filterMap.mpr ⟨(n, p), hm, ?_⟩))
+  simp [hs]
+
 /-! ### `validate_types` -/
 
 theorem typesBad_enforced (s : SchemaDef) (w : Viol) (h : TypesBad s.types w) : w ∈ violations s := by
   obtain ⟨T, hT, q, x, hm, hbad⟩ := h
   have hall : (q, x) ∈ allElems s := by unfold allElems; exact List.mem_flatMap.mpr ⟨T, hT, hm⟩
-  unfold violations
-  have hname : ∀ (n : String) (p : Path), (n, p) ∈ entityNames s → symbolicName n = false →
-      (DiagClass.invalidName, p) ∈ nameViols s := by
-    intro n p hm' hs
-    unfold nameViols
-    refine List.mem_append.mpr (Or.inl (List.mem_filterMap.mpr ⟨(n, p), hm', ?_⟩))
-    simp [hs]
   rcases hbad with ⟨h1, rfl⟩ | hsub | hel
-  · have := hname _ _ (entityNames_elem s q x hall) h1
-    simp only [List.mem_append]
-    exact Or.inl (Or.inl (Or.inl (Or.inl (Or.inr this))))
+  · exact viol_of_invalidName s _ _ (entityNames_elem s q x hall) h1
   · cases x with
     | enum nm enc o vs a =>
       obtain ⟨v, hv, h1, rfl⟩ := hsub
-      have := hname _ _ (entityNames_vv s q nm enc o vs a hall v hv) h1
-      simp only [List.mem_append]
-      exact Or.inl (Or.inl (Or.inl (Or.inl (Or.inr this))))
+      exact viol_of_invalidName s _ _ (entityNames_vv s q nm enc o vs a hall v hv) h1
     | set nm enc o cs a =>
       obtain ⟨c, hc, h1, rfl⟩ := hsub
-      have := hname _ _ (entityNames_choice s q nm enc o cs a hall c hc) h1
-      simp only [List.mem_append]
-      exact Or.inl (Or.inl (Or.inl (Or.inl (Or.inr this))))
+      exact viol_of_invalidName s _ _ (entityNames_choice s q nm enc o cs a hall c hc) h1
     | type t => exact absurd hsub (by simp)
     | ref nm ty o a => exact absurd hsub (by simp)
     | composite nm o elems a => exact absurd hsub (by simp)
-  · simp only [List.mem_append]
-    exact Or.inl (Or.inl (Or.inl (Or.inr (List.mem_flatMap.mpr ⟨(q, x), hall, hel⟩))))
+  · exact viol_of_elem s w q x hall hel
 
 /-- every candidate first diagnostic of `validate_types` is a violation the specification lists -/
 theorem vRoot_sound (hfp : FpAgree) (s : SchemaDef) (hnd : (lowerNames s.types).Nodup)
@@ -501,9 +554,7 @@ theorem vRoot_sound (hfp : FpAgree) (s : SchemaDef) (hnd : (lowerNames s.types).
     have hd : d.viol = (DiagClass.cyclicReference, typePath x) := by
       simp [Diag.viol, hc, hloc, typePath]
     rw [hd]
-    unfold violations
-    simp only [List.mem_append]
-    exact Or.inl (Or.inl (Or.inr hcyc))
+    exact viol_of_cycle s _ hcyc
   · exact absurd hf (fuel_never_exhausted s.types t ht d h)
   · exact typesBad_enforced s _ hb
 
@@ -577,11 +628,18 @@ theorem vLevelHeaderElement_err (types : List Elem) (hp : Path) (elems : List El
       rcases h with ⟨h1, rfl⟩ | ⟨h1, h⟩
       · simp only [beq_eq_false_iff_ne, ne_eq] at h1
         simp [h1, Diag.viol]
-      · rw [need_err] at h
-        obtain ⟨h2, rfl⟩ := h
-        simp only [beq_iff_eq] at h1
-        simp only [bne_eq_false_iff_eq] at h2
-        simp [h1, h2, Diag.viol]
+      · simp only [beq_iff_eq] at h1
+        rw [need_bind_err] at h
+        rcases h with ⟨h2, rfl⟩ | ⟨h2, h⟩
+        · simp only [bne_eq_false_iff_eq] at h2
+          simp [h1, h2, Diag.viol]
+        · rw [need_err, isIntegral_eq] at h
+          obtain ⟨h3, rfl⟩ := h
+          have h2' : (t.presence == Presence.constant) = false := by
+            cases hpc : t.presence == Presence.constant
+            · rfl
+            · simp [bne, hpc] at h2
+          simp [h1, h2', h3, Diag.viol]
 
 theorem vLevelHeader_err (types : List Elem) (user : Path) (hdr : String) (required : List String) (d : Diag)
     (h : vLevelHeader types user hdr required = .error d) : d.viol ∈ headerViols types user hdr required false := by
@@ -596,9 +654,17 @@ theorem vLevelHeader_err (types : List Elem) (user : Path) (hdr : String) (requi
     cases e with
     | composite n o elems a =>
       simp only [hf] at h ⊢
-      obtain ⟨r, hr, hrd⟩ := allOk_err _ _ d h
-      simp only [Bool.false_eq_true, ↓reduceIte, List.append_nil, List.mem_flatMap]
-      exact ⟨r, hr, vLevelHeaderElement_err types _ elems r d hrd⟩
+      simp only [Bool.false_eq_true, ↓reduceIte, List.mem_append, List.mem_flatMap]
+      rcases (bind_err _ _ d).mp h with h | ⟨_, _, h⟩
+      · obtain ⟨r, hr, hrd⟩ := allOk_err _ _ d h
+        exact Or.inl ⟨r, hr, vLevelHeaderElement_err types _ elems r d hrd⟩
+      · obtain ⟨r, hr, hrd⟩ := allOk_err _ _ d h
+        refine Or.inr ⟨r, by simpa [optionalCounters] using hr, ?_⟩
+        split at hrd
+        · rename_i hpres
+          simp only [hpres, ↓reduceIte]
+          exact vLevelHeaderElement_err types _ elems r d hrd
+        · cases hrd
     | _ =>
       simp only [hf, fail, Except.error.injEq] at h
       subst h; simp [Diag.viol, typePath, Elem.name]
@@ -850,60 +916,131 @@ theorem vDatas_err (types : List Elem) (hsz : SizesAgree types) (lp : Path) :
       · obtain ⟨y, hy, hh⟩ := ih d h
         exact ⟨y, by simp [hy], hh⟩
 
-theorem blockLength_err (types : List Elem) (lp : Path) (bl : Option Nat) (fields : List FieldDef) (off : Nat)
-    (hend : fieldsEnd types 0 fields = some off) (d : Diag)
-    (h : (match Schema.blockLength bl off with
-          | .error _ => (fail .blockLengthTooSmall lp : R Unit)
-          | .ok _ => .ok ()) = .error d) : d.viol ∈ blockLengthViols types lp bl fields := by
-  unfold blockLengthViols
+theorem vHeaderValue_err (hfp : FpAgree) (types : List Elem) (hdr name : String) (value : Nat) (loc : Path)
+    (hres : HdrResolves types hdr name) (d : Diag) (h : vHeaderValue types hdr name value loc = .error d) :
+    d.viol ∈ headerValueViols types hdr name value loc := by
+  unfold vHeaderValue at h
+  unfold headerValueViols
+  rw [lookup_eq] at h
+  cases hf : findType types hdr with
+  | none => simp [hf] at h
+  | some e =>
+    cases e with
+    | composite n o elems a =>
+      simp only [hf] at h ⊢
+      by_cases hpres : (elems.find? (fun e => e.name == name)).isNone = true
+      · simp [hpres] at h
+      · simp only [hpres, Bool.false_eq_true, ↓reduceIte] at h
+        obtain ⟨t, ep, hm⟩ := hres n o elems a hf (by
+          cases hx : elems.find? (fun e => e.name == name) with
+          | none => simp [hx] at hpres
+          | some _ => rfl)
+        rw [levelHeaderElement_eq, hm] at h
+        simp only [hm]
+        change need _ _ _ = _ at h
+        rw [need_err, valueFits_all hfp] at h
+        obtain ⟨h1, rfl⟩ := h
+        simp only at h1
+        simp only [h1, Bool.false_eq_true, ↓reduceIte, List.mem_singleton]
+        rfl
+    | _ => simp [hf] at h
+
+theorem vLevelValues_err (hfp : FpAgree) (types : List Elem) (hdr : String) (hv : HdrValid types hdr) (p : Path)
+    (bl : Option Nat) (fields : List FieldDef) (off ng nd : Nat) (hend : fieldsEnd types 0 fields = some off) (d : Diag)
+    (h : vLevelValues types hdr p bl off ng nd = .error d) : d.viol ∈ levelValueViols types hdr p bl fields ng nd := by
+  obtain ⟨r1, r2, r3⟩ := hv
+  unfold vLevelValues Schema.blockLength at h
+  unfold levelValueViols blockLengthViols
   rw [hend]
-  unfold Schema.blockLength at h
+  simp only [List.mem_append]
+  have key : ∀ b, bl.getD off = b →
+      (do vHeaderValue types hdr "blockLength" b p
+          vHeaderValue types hdr "numGroups" ng p
+          vHeaderValue types hdr "numVarDataFields" nd p) = Except.error d →
+      (d.viol ∈ headerValueViols types hdr "blockLength" (bl.getD off) p ∨
+        d.viol ∈ headerValueViols types hdr "numGroups" ng p) ∨
+        d.viol ∈ headerValueViols types hdr "numVarDataFields" nd p := by
+    intro b hb h
+    subst hb
+    rcases (bind_err _ _ d).mp h with h | ⟨_, _, h⟩
+    · exact Or.inl (Or.inl (vHeaderValue_err hfp types hdr _ _ _ r1 d h))
+    · rcases (bind_err _ _ d).mp h with h | ⟨_, _, h⟩
+      · exact Or.inl (Or.inr (vHeaderValue_err hfp types hdr _ _ _ r2 d h))
+      · exact Or.inr (vHeaderValue_err hfp types hdr _ _ _ r3 d h)
   cases bl with
-  | none => simp at h
+  | none =>
+    rcases key off rfl h with (hh | hh) | hh
+    · exact Or.inl (Or.inl (Or.inr hh))
+    · exact Or.inl (Or.inr hh)
+    · exact Or.inr hh
   | some b =>
     simp only at h ⊢
     by_cases hlt : b < off
     · simp only [hlt, ↓reduceIte, fail, Except.error.injEq] at h
       subst h
       simp [hlt, Diag.viol]
-    · simp [hlt] at h
+    · simp only [hlt, ↓reduceIte] at h
+      rcases key b rfl h with (hh | hh) | hh
+      · exact Or.inl (Or.inl (Or.inr hh))
+      · exact Or.inl (Or.inr hh)
+      · exact Or.inr hh
+
+/-! where a broken rule sits in `levelViols` -/
+
+theorem lv_field (types : List Elem) (l : LevelView) (w : Viol) (f : FieldDef) (hf : f ∈ l.fields)
+    (h : w ∈ fieldViols types l.path f) : w ∈ levelViols types l := by
+  have : w ∈ l.fields.flatMap (fieldViols types l.path) := List.mem_flatMap.mpr ⟨f, hf, h⟩
+  unfold levelViols; simp only [List.mem_append]; simp only [this, true_or]
+theorem lv_offset (types : List Elem) (l : LevelView) (w : Viol)
+    (h : w ∈ (fieldMinima types 0 l.fields).filterMap (fieldOffsetViol l.path)) : w ∈ levelViols types l := by
+  unfold levelViols; simp only [List.mem_append]; simp only [h, true_or, or_true]
+theorem lv_value (types : List Elem) (l : LevelView) (w : Viol)
+    (h : w ∈ levelValueViols types l.hdr l.path l.blockLength l.fields l.groups.length l.datas.length) :
+    w ∈ levelViols types l := by
+  unfold levelValueViols at h
+  unfold levelViols
+  simp only [List.mem_append] at h ⊢
+  rcases h with ((h | h) | h) | h
+  · exact Or.inl (Or.inl (Or.inl (Or.inl (Or.inl (Or.inr h)))))
+  · exact Or.inl (Or.inl (Or.inl (Or.inl (Or.inr h))))
+  · exact Or.inl (Or.inl (Or.inl (Or.inr h)))
+  · exact Or.inl (Or.inl (Or.inr h))
+theorem lv_group (types : List Elem) (l : LevelView) (w : Viol) (g : GroupDef) (hg : g ∈ l.groups)
+    (h : w ∈ headerViols types (l.path ++ [gName g]) (gDim g) ["numInGroup", "blockLength"] false) :
+    w ∈ levelViols types l := by
+  unfold levelViols
+  simp only [List.mem_append, List.mem_flatMap]
+  exact Or.inl (Or.inr ⟨g, hg, h⟩)
+theorem lv_data (types : List Elem) (l : LevelView) (w : Viol) (x : DataDef) (hx : x ∈ l.datas)
+    (h : w ∈ headerViols types (l.path ++ [x.name]) x.type ["length"] true) : w ∈ levelViols types l := by
+  unfold levelViols
+  simp only [List.mem_append, List.mem_flatMap]
+  exact Or.inr ⟨x, hx, h⟩
 
 /-- the part of `validate_members` that concerns one level (not its sub-groups' bodies) -/
 theorem level_err (hfp : FpAgree) (types : List Elem) (hnr : NoTopLevelRef types)
-    (hsz : SizesAgree types) (lp : Path) (bl : Option Nat) (fields : List FieldDef) (groups : List GroupDef)
-    (datas : List DataDef) (d : Diag) :
-    (vFields types lp 0 fields = .error d → LevelBad types ⟨lp, bl, fields, groups, datas⟩ d.viol) ∧
+    (hsz : SizesAgree types) (hdr : String) (hv : HdrValid types hdr) (lp : Path) (bl : Option Nat)
+    (fields : List FieldDef) (groups : List GroupDef) (datas : List DataDef) (d : Diag) :
+    (vFields types lp 0 fields = .error d → LevelBad types ⟨lp, bl, fields, groups, datas, hdr⟩ d.viol) ∧
     (∀ off, vFields types lp 0 fields = .ok off →
-      (match Schema.blockLength bl off with
-       | .error _ => (fail .blockLengthTooSmall lp : R Unit)
-       | .ok _ => .ok ()) = .error d → LevelBad types ⟨lp, bl, fields, groups, datas⟩ d.viol) ∧
-    (vDatas types lp datas = .error d → LevelBad types ⟨lp, bl, fields, groups, datas⟩ d.viol) := by
+      vLevelValues types hdr lp bl off groups.length datas.length = .error d →
+        LevelBad types ⟨lp, bl, fields, groups, datas, hdr⟩ d.viol) ∧
+    (vDatas types lp datas = .error d → LevelBad types ⟨lp, bl, fields, groups, datas, hdr⟩ d.viol) := by
   refine ⟨?_, ?_, ?_⟩
   · intro h
     rcases vFields_err hfp types hnr hsz lp fields 0 d h with ⟨f, hf, hh⟩ | ⟨f, hf, hh⟩ | hh
     · exact Or.inl ⟨f, hf, hh⟩
-    · refine Or.inr (Or.inr (Or.inr ?_))
-      unfold levelViols
-      simp only [List.mem_append, List.mem_flatMap]
-      exact Or.inl (Or.inl (Or.inl (Or.inl ⟨f, hf, hh⟩)))
-    · refine Or.inr (Or.inr (Or.inr ?_))
-      unfold levelViols
-      simp only [List.mem_append]
-      exact Or.inl (Or.inl (Or.inl (Or.inr hh)))
+    · exact Or.inr (Or.inr (Or.inr (lv_field types ⟨lp, bl, fields, groups, datas, hdr⟩ _ f hf hh)))
+    · exact Or.inr (Or.inr (Or.inr (lv_offset types ⟨lp, bl, fields, groups, datas, hdr⟩ _ hh)))
   · intro off hoff h
     have hend := (vFields_ok hfp types hsz lp fields 0 off hoff).2.2
-    refine Or.inr (Or.inr (Or.inr ?_))
-    unfold levelViols
-    simp only [List.mem_append]
-    exact Or.inl (Or.inl (Or.inr (blockLength_err types lp bl fields off hend d h)))
+    exact Or.inr (Or.inr (Or.inr (lv_value types ⟨lp, bl, fields, groups, datas, hdr⟩ _
+      (vLevelValues_err hfp types hdr hv lp bl fields off _ _ hend d h))))
   · intro h
     obtain ⟨x, hx, hh⟩ := vDatas_err types hsz lp datas d h
     rcases hh with hh | hh
     · exact Or.inr (Or.inr (Or.inl ⟨x, hx, hh⟩))
-    · refine Or.inr (Or.inr (Or.inr ?_))
-      unfold levelViols
-      simp only [List.mem_append, List.mem_flatMap]
-      exact Or.inr ⟨x, hx, hh⟩
+    · exact Or.inr (Or.inr (Or.inr (lv_data types ⟨lp, bl, fields, groups, datas, hdr⟩ _ x hx hh)))
 
 section LevelsSound
 variable (hfp : FpAgree) (types : List Elem) (hnr : NoTopLevelRef types)
@@ -922,11 +1059,12 @@ mutual
       rw [vName_bind_err] at h
       rcases h with ⟨h1, rfl⟩ | ⟨_, h⟩
       · exact Or.inl ⟨h1, rfl⟩
-      · rcases (bind_err _ _ d).mp h with h | ⟨_, _, h⟩
+      · rcases (bind_err _ _ d).mp h with h | ⟨_, hhdr, h⟩
         · exact Or.inr (Or.inl (vLevelHeader_err types _ dim _ d h))
         · refine Or.inr (Or.inr ?_)
-          obtain ⟨e1, e2, e3⟩ := level_err hfp types hnr hsz (lp ++ [n]) bl fields groups datas d
-          have hself : (⟨lp ++ [n], bl, fields, groups, datas⟩ : LevelView) ∈
+          have hv := hdrValid_of_valid types _ dim _ (by simp) ((vLevelHeader_ok types _ dim _ _).mp hhdr)
+          obtain ⟨e1, e2, e3⟩ := level_err hfp types hnr hsz dim hv (lp ++ [n]) bl fields groups datas d
+          have hself : (⟨lp ++ [n], bl, fields, groups, datas, dim⟩ : LevelView) ∈
               groupLevels lp (.mk n id dim bl fields groups datas a) := by simp [groupLevels]
           rcases (bind_err _ _ d).mp h with h | ⟨off, hoff, h⟩
           · exact ⟨_, hself, e1 h⟩
@@ -937,10 +1075,7 @@ mutual
                 · refine ⟨_, hself, ?_⟩
                   rcases hh with hh | hh
                   · exact Or.inr (Or.inl ⟨g', hg', hh⟩)
-                  · refine Or.inr (Or.inr (Or.inr ?_))
-                    unfold levelViols
-                    simp only [List.mem_append, List.mem_flatMap]
-                    exact Or.inl (Or.inr ⟨g', hg', hh⟩)
+                  · exact Or.inr (Or.inr (Or.inr (lv_group types ⟨lp ++ [n], bl, fields, groups, datas, dim⟩ _ g' hg' hh)))
                 · exact ⟨l, by simp [groupLevels, hl], hh⟩
               · exact ⟨_, hself, e3 h⟩
   theorem vGroups_err : ∀ (gs : List GroupDef) (lp : Path) (d : Diag), vGroups types lp gs = .error d →
@@ -960,70 +1095,67 @@ mutual
         · exact Or.inr ⟨l, by simp [groupLevelsL, hl], hh⟩
 end
 
-theorem vMessage_err (m : MessageDef) (d : Diag) (h : vMessage types m = .error d) :
+theorem vMessage_err (hdr : String) (hv : HdrValid types hdr) (ht : HdrResolves types hdr "templateId")
+    (m : MessageDef) (d : Diag) (h : vMessage types hdr m = .error d) :
     (symbolicName m.name = false ∧ d.viol = (.invalidName, msgPath m)) ∨
-    ∃ l ∈ messageLevels m, LevelBad types l d.viol := by
+    d.viol ∈ headerValueViols types hdr "templateId" m.id (msgPath m) ∨
+    ∃ l ∈ messageLevels hdr m, LevelBad types l d.viol := by
   simp only [vMessage] at h
   rw [vName_bind_err] at h
   rcases h with ⟨h1, rfl⟩ | ⟨_, h⟩
   · exact Or.inl ⟨h1, rfl⟩
   · right
-    obtain ⟨e1, e2, e3⟩ := level_err hfp types hnr hsz (msgPath m) m.blockLength m.fields m.groups m.datas d
-    have hself : (⟨msgPath m, m.blockLength, m.fields, m.groups, m.datas⟩ : LevelView) ∈ messageLevels m := by
-      simp [messageLevels]
-    rcases (bind_err _ _ d).mp h with h | ⟨off, hoff, h⟩
-    · exact ⟨_, hself, e1 h⟩
-    · rcases (bind_err _ _ d).mp h with h | ⟨_, _, h⟩
-      · exact ⟨_, hself, e2 off hoff h⟩
+    rcases (bind_err _ _ d).mp h with h | ⟨_, _, h⟩
+    · exact Or.inl (vHeaderValue_err hfp types hdr _ _ _ ht d h)
+    · right
+      obtain ⟨e1, e2, e3⟩ := level_err hfp types hnr hsz hdr hv (msgPath m) m.blockLength m.fields m.groups m.datas d
+      have hself : (⟨msgPath m, m.blockLength, m.fields, m.groups, m.datas, hdr⟩ : LevelView) ∈ messageLevels hdr m := by
+        simp [messageLevels]
+      rcases (bind_err _ _ d).mp h with h | ⟨off, hoff, h⟩
+      · exact ⟨_, hself, e1 h⟩
       · rcases (bind_err _ _ d).mp h with h | ⟨_, _, h⟩
-        · rcases vGroups_err hfp types hnr hsz m.groups (msgPath m) d h with ⟨g', hg', hh⟩ | ⟨l, hl, hh⟩
-          · refine ⟨_, hself, ?_⟩
-            rcases hh with hh | hh
-            · exact Or.inr (Or.inl ⟨g', hg', hh⟩)
-            · refine Or.inr (Or.inr (Or.inr ?_))
-              unfold levelViols
-              simp only [List.mem_append, List.mem_flatMap]
-              exact Or.inl (Or.inr ⟨g', hg', hh⟩)
-          · exact ⟨l, by simp [messageLevels, hl], hh⟩
-        · exact ⟨_, hself, e3 h⟩
+        · exact ⟨_, hself, e2 off hoff h⟩
+        · rcases (bind_err _ _ d).mp h with h | ⟨_, _, h⟩
+          · rcases vGroups_err hfp types hnr hsz m.groups (msgPath m) d h with ⟨g', hg', hh⟩ | ⟨l, hl, hh⟩
+            · refine ⟨_, hself, ?_⟩
+              rcases hh with hh | hh
+              · exact Or.inr (Or.inl ⟨g', hg', hh⟩)
+              · exact Or.inr (Or.inr (Or.inr (lv_group types
+                  ⟨msgPath m, m.blockLength, m.fields, m.groups, m.datas, hdr⟩ _ g' hg' hh)))
+            · exact ⟨l, by simp [messageLevels, hl], hh⟩
+          · exact ⟨_, hself, e3 h⟩
 
 end LevelsSound
 
 theorem levelBad_enforced (s : SchemaDef) (l : LevelView) (hl : l ∈ allLevels s) (w : Viol)
     (h : LevelBad s.types l w) : w ∈ violations s := by
-  have hname : ∀ (n : String) (p : Path), (n, p) ∈ entityNames s → symbolicName n = false →
-      (DiagClass.invalidName, p) ∈ violations s := by
-    intro n p hm' hs
-    unfold violations nameViols
-    simp only [List.mem_append]
-    refine Or.inl (Or.inl (Or.inl (Or.inl (Or.inr (Or.inl (List.mem_filterMap.mpr ⟨(n, p), hm', ?_⟩))))))
-    simp [hs]
+  have hname := viol_of_invalidName s
   rcases h with ⟨f, hf, h1, rfl⟩ | ⟨g, hg, h1, rfl⟩ | ⟨d, hd, h1, rfl⟩ | h
   · exact hname _ _ (entityNames_field s l hl f hf) h1
   · exact hname _ _ (entityNames_group s l hl g hg) h1
   · exact hname _ _ (entityNames_data s l hl d hd) h1
-  · unfold violations
-    simp only [List.mem_append]
-    exact Or.inr (List.mem_flatMap.mpr ⟨l, hl, h⟩)
+  · exact viol_of_level s w l hl h
 
 theorem messagesPhase_sound (hfp : FpAgree) (s : SchemaDef)
     (hnr : NoTopLevelRef s.types) (hsz : SizesAgree s.types) (d : Diag) (h : messagesPhase s = .error d) :
     d.viol ∈ violations s := by
   simp only [messagesPhase] at h
-  rcases (bind_err _ _ d).mp h with h | ⟨_, _, h⟩
-  · have := vLevelHeader_err s.types _ _ _ d h
-    unfold violations
-    simp only [List.mem_append]
-    exact Or.inl (Or.inr this)
-  · obtain ⟨m, hm, hmd⟩ := allOk_err _ _ d h
-    rcases vMessage_err hfp s.types hnr hsz m d hmd with ⟨h1, hv⟩ | ⟨l, hl, hb⟩
-    · rw [hv]
-      unfold violations nameViols
-      simp only [List.mem_append]
-      refine Or.inl (Or.inl (Or.inl (Or.inl (Or.inr (Or.inl (List.mem_filterMap.mpr
-        ⟨(m.name, msgPath m), entityNames_msg s m hm, ?_⟩))))))
-      simp [h1]
-    · exact levelBad_enforced s l (by unfold allLevels; exact List.mem_flatMap.mpr ⟨m, hm, hl⟩) _ hb
+  rcases (bind_err _ _ d).mp h with h | ⟨_, hhdr, h⟩
+  · exact viol_of_header s _ (vLevelHeader_err s.types _ _ _ d h)
+  · have h1 := (vLevelHeader_ok s.types _ s.headerType _ _).mp hhdr
+    have hr := fun name hn => hdrResolves_of_valid s.types ["schema"] s.headerType _ h1 name (Or.inl hn)
+    have hv := hdrValid_of_valid s.types _ s.headerType _ (by simp) h1
+    rcases (bind_err _ _ d).mp h with h | ⟨_, _, h⟩
+    · exact viol_of_schemaId s _ (vHeaderValue_err hfp s.types _ _ _ _ (hr _ (by simp)) d h)
+    · rcases (bind_err _ _ d).mp h with h | ⟨_, _, h⟩
+      · exact viol_of_version s _ (vHeaderValue_err hfp s.types _ _ _ _ (hr _ (by simp)) d h)
+      · obtain ⟨m, hm, hmd⟩ := allOk_err _ _ d h
+        rcases vMessage_err hfp s.types hnr hsz s.headerType hv (hr _ (by simp)) m d hmd with
+          ⟨h1, hv⟩ | htid | ⟨l, hl, hb⟩
+        · rw [hv]
+          exact viol_of_invalidName s _ _ (entityNames_msg s m hm) h1
+        · exact viol_of_templateId s _ m hm htid
+        · exact levelBad_enforced s l (by unfold allLevels; exact List.mem_flatMap.mpr ⟨m, hm, hl⟩) _ hb
 
 
 end Sbepp.Schema.Rules
